@@ -293,4 +293,18 @@ theorem convert_other_is_string (canon : String → Option String) (dt lex : Str
   have hd' : dt ≠ tDouble := hd
   simp [convert, hb', hi, ht', hd']
 
+/-- a double literal the number parser refuses is an error - never the encoding of some other number (0.0, say) -/
+theorem double_illformed_rejected (canon : String → Option String) (lex : String) (p : Nat) (h : canon lex = none) :
+    convert canon tDouble lex p = .error "double" := by
+  have hb : tDouble ≠ tBoolean := by decide
+  have hi : isIntType tDouble = false := by decide
+  have ht : tDouble ≠ tDateTime := by decide
+  simp [convert, hb, hi, ht, h]
+
+/-- … and hashing it is an error as well, for every hasher -/
+theorem double_illformed_no_hash (canon : String → Option String) (h : Hasher) (lex : String)
+    (hc : canon lex = none) : ∃ e, (convert canon tDouble lex h.prime).bind (enc h) = .error e := by
+  rw [double_illformed_rejected canon lex h.prime hc]
+  exact ⟨_, rfl⟩
+
 end Gsp.Props.C04
